@@ -147,7 +147,11 @@ def _is_numeric_constant(value: ast.expr) -> bool:
     Returns:
         True if value is a numeric constant
     """
-    return isinstance(value, ast.Constant) and isinstance(value.value, (int, float))
+    return (
+        isinstance(value, ast.Constant)
+        and isinstance(value.value, (int, float))
+        and not isinstance(value.value, bool)
+    )
 
 
 def _is_uppercase_name_target(target: ast.expr) -> bool:
@@ -223,4 +227,8 @@ def _is_int_key(key: ast.expr | None) -> bool:
     Returns:
         True if key is an integer constant
     """
-    return isinstance(key, ast.Constant) and isinstance(key.value, int)
+    return (
+        isinstance(key, ast.Constant)
+        and isinstance(key.value, int)
+        and not isinstance(key.value, bool)
+    )
